@@ -393,18 +393,21 @@ async fn main() {
     out.push(run_fixed("directed-release-not-held", 2, &[Unlock(1, 5), Request(1, vec![5], 0), Unlock(2, 6), Unlock(1, 5), Unlock(1, 5), Request(2, vec![5], 0)]).await);
 
     // ---- exhaustive enumeration over a small alphabet (the state space for small bounds is finite) ----
-    let (alpha, depth) = if tier_thorough() { (alphabet(false), 4usize) } else { (alphabet(true), 3usize) };
-    let n = alpha.len();
-    let mut total = 1usize; for _ in 0..depth { total *= n; }
-    for max in 1..=2usize {
-        for code in 0..total {
-            let mut x = code; let mut tr = vec![];
-            for _ in 0..depth { tr.push(alpha[x % n].clone()); x /= n; }
-            out.push(run_fixed("exhaustive", max, &tr).await);
+    let mut plans: Vec<(Vec<Msg>, usize)> = vec![(alphabet(true), 3)];
+    if tier_thorough() { plans = vec![(alphabet(true), 4), (alphabet(false), 3)]; }
+    for (alpha, depth) in plans {
+        let n = alpha.len();
+        let mut total = 1usize; for _ in 0..depth { total *= n; }
+        for max in 1..=2usize {
+            for code in 0..total {
+                let mut x = code; let mut tr = vec![];
+                for _ in 0..depth { tr.push(alpha[x % n].clone()); x /= n; }
+                out.push(run_fixed("exhaustive", max, &tr).await);
+            }
         }
     }
     // ---- random histories ----
-    let nr = scale(600, 12000);
+    let nr = scale(600, 6000);
     for i in 0..nr {
         let mut r = rng.fork();
         out.push(run_random(&mut r, i % 4 == 3).await);
@@ -424,7 +427,7 @@ async fn main() {
         out.push(run_conn_fixed(&sh, "conn-directed-end-with-task-harmless", 1, &[Request(1, vec![5]), Take(1), End(1), Finish(1, 5), Request(2, vec![5]), Take(2), Finish(2, 5)]).await);
         // exhaustive over a small alphabet
         let alpha = vec![Request(1, vec![1]), Request(2, vec![1]), Request(2, vec![1, 2]), Take(1), Take(2), Finish(1, 1), Finish(2, 1), End(1)];
-        let depth = if tier_thorough() { 5usize } else { 3usize };
+        let depth = if tier_thorough() { 4usize } else { 3usize };
         let n = alpha.len(); let mut total = 1usize; for _ in 0..depth { total *= n; }
         for code in 0..total {
             let mut x = code; let mut evs = vec![];
@@ -434,7 +437,7 @@ async fn main() {
             out.push(run_conn_fixed(&sh, "conn-exhaustive", 1, &evs).await);
         }
     }
-    let nc = scale(200, 3000);
+    let nc = scale(200, 2000);
     for i in 0..nc {
         let mut r = rng.fork();
         out.push(run_conn_random(&sh, &mut r, i % 3 == 2).await);
